@@ -967,6 +967,22 @@ func c09(r *core.Run) {
 		if w, ok := core.Reach(core.Q{From: headsOf(yes), Target: core.IsReturn, Blocked: isStamp}); ok {
 			o.Fail(p.InstrPos(w), "an overload is reported without stamping overloadTime with the current time (the cool-off second would never start)")
 		}
+		// the stamp is owned by the overload test: written nowhere else, and only when the checker said yes
+		// (a stamp on every drop would re-arm the cool-off second from the last rejection instead of the last overload)
+		anyStamp := func(in ssa.Instruction) bool {
+			cc := core.AsCall(in)
+			return cc != nil && core.Short(core.CalleeName(cc)) == "(*lib/syncx.AtomicDuration).Set" && core.IsFieldLoad(core.Args(cc)[0], c.field("overloadTime"))
+		}
+		for _, g := range p.PkgFuncs(loadPkg) {
+			for _, st := range core.Instrs(g, anyStamp) {
+				if g != f {
+					o.Fail(p.InstrPos(st), "%s stamps overloadTime outside the overload test: the cool-off second is re-armed by something other than a CPU overload", core.FuncName(g))
+				}
+			}
+		}
+		if w := core.Requires(f, anyStamp, core.BoolVal(isCallValue(isChk))); w != nil {
+			o.Fail(p.InstrPos(w), "overloadTime is stamped although the overload checker did not report an overload")
+		}
 		// the default checker
 		var chk *ssa.Function
 		for _, g := range p.PkgFuncs(loadPkg) {
